@@ -28,8 +28,9 @@ func GuardNames(p *load.Program, run *report.Run, pkgs []string) {
 			if !ok {
 				return true
 			}
-			for i := 0; i+1 < len(blk.List); i++ {
-				as, ok := blk.List[i].(*ast.AssignStmt)
+			list := effective(info, blk.List)
+			for i := 0; i+1 < len(list); i++ {
+				as, ok := list[i].(*ast.AssignStmt)
 				if !ok || len(as.Lhs) != 2 || len(as.Rhs) != 1 {
 					continue
 				}
@@ -48,7 +49,7 @@ func GuardNames(p *load.Program, run *report.Run, pkgs []string) {
 				if !isVar {
 					continue
 				}
-				ifs, ok := blk.List[i+1].(*ast.IfStmt)
+				ifs, ok := list[i+1].(*ast.IfStmt)
 				if !ok {
 					continue
 				}
